@@ -74,6 +74,18 @@ func Install(vm *goja.Runtime) {
 		// a Go string imported through ToValue (lazily scanned when longer than 16 bytes)
 		return vm.ToValue(call.Argument(0).String())
 	})
+	vm.Set("__goRaw", func(call goja.FunctionCall) goja.Value {
+		// a Go string that need not be valid UTF-8: a prefix followed by raw bytes
+		b := []byte(call.Argument(0).String())
+		if arr, ok := call.Argument(1).Export().([]interface{}); ok {
+			for _, x := range arr {
+				if n, ok := x.(int64); ok {
+					b = append(b, byte(n))
+				}
+			}
+		}
+		return vm.ToValue(string(b))
+	})
 	// Go-side views of a string (C06): equal content must export to the same Go string
 	vm.Set("__exportEq", func(call goja.FunctionCall) goja.Value {
 		a, b := call.Argument(0), call.Argument(1)
